@@ -121,6 +121,11 @@ pub fn show_event(e: &Event) -> String {
     }
 }
 
+/// the settings of the case line's `td=` option, if it has one
+pub fn timeout_override(retries: usize) -> Option<TimeoutSettings> {
+    DURATIONS.with(|d| d.get()).map(|[r, w, c]| TimeoutSettings::new(r, w, c, retries).unwrap())
+}
+
 pub fn timeout(retries: usize) -> Option<TimeoutSettings> {
     // durations are irrelevant to the scripted transport itself (no clock) but reach every computation the code makes
     // with them; a case line may set them (`td=`), they must be valid
